@@ -34,16 +34,16 @@ class C10(Check):
         if tier == 'quick':
             return {'W': '1..4', 'N': '1..3', 'T': 'W..W+3', 'series': '1..3, lengths W..W+2 independently',
                     'labels': 'symbolic ints', 'split': '1..3 series of 1..3 stacked points, W 1..5'}
-        return {'W': '1..8', 'N': '1..4', 'T': 'W..W+6', 'series': '1..5, lengths W..W+2 independently (W<=4, N<=2)',
+        return {'W': '1..12', 'N': '1..6', 'T': 'W..W+40 (the whole range the property states)', 'series': '1..6, lengths W..W+2 independently (W<=4, N<=2; 5-6 series: W<=2)',
                 'labels': 'symbolic ints', 'split': '1..4 series of 1..4 stacked points, W 1..9'}
 
     def configs(self, tier):
         q = tier == 'quick'
-        cfgs = [Config('stack', self.stack, {'Wmax': 4 if q else 8, 'Nmax': 3 if q else 4, 'dT': 3 if q else 6},
-                       split=2, witness_every=5, max_fanout=128)]
-        for S in ([1, 2, 3] if q else [1, 2, 3, 4, 5]):
+        cfgs = [Config('stack', self.stack, {'Wmax': 4 if q else 12, 'Nmax': 3 if q else 6, 'dT': 3 if q else 40},
+                       split=2, witness_every=5 if q else 97, max_fanout=128)]
+        for S in ([1, 2, 3] if q else [1, 2, 3, 4, 5, 6]):
             cfgs.append(Config('multi_S%d' % S, self.multi,
-                               {'S': S, 'Wmax': 3 if q else 4, 'Nmax': 2, 'dT': 2},
+                               {'S': S, 'Wmax': 3 if q else (4 if S <= 4 else 2), 'Nmax': 2, 'dT': 2 if S <= 5 else 1},
                                split=2, witness_every=17))
         for S in ([1, 2, 3] if q else [1, 2, 3, 4]):
             cfgs.append(Config('split_S%d' % S, self.split, {'S': S, 'Lmax': 3 if q else 4, 'Wmax': 5 if q else 9},
